@@ -87,6 +87,14 @@ func lessAny(a, b reflect.Value) bool {
 		}
 		return false
 	case reflect.Pointer, reflect.Chan, reflect.UnsafePointer:
+		// objects that can name themselves get a canonical order without looking at addresses
+		if a.CanInterface() && b.CanInterface() {
+			if an, ok := a.Interface().(interface{ Name() string }); ok {
+				if bn, ok := b.Interface().(interface{ Name() string }); ok && an.Name() != bn.Name() {
+					return an.Name() < bn.Name()
+				}
+			}
+		}
 		// no canonical order exists for addresses; order of first registration
 		return ptrSeq(a) < ptrSeq(b)
 	}
